@@ -34,6 +34,33 @@ pub fn exec(func: &str, a: &mut Args) -> String {
                 Ok((v, t)) => format!("{} {} {} {}", v.len(), v.iter().map(d3::fp).collect::<Vec<_>>().join(" "), t.len(),
                     t.iter().map(|t| format!("{} {} {}", t[0], t[1], t[2])).collect::<Vec<_>>().join(" ")) } };
             format!("{} ;; {}", obs, out) }
+        // try_convex_hull followed by the maintainers' validator check_convex_hull on its result (same observed input as hull3m)
+        "hull3v" => { let n = a.u(); let pts: Vec<_> = (0..n).map(|_| d3::p(a)).collect();
+            if pts.len() < 3 { return "lowdim".into(); }
+            let mut np = pts.clone();
+            { let aabb = crate::p3::bounding_volume::details::local_point_cloud_aabb(&*np);
+                let diag = d3::na::distance(&aabb.mins, &aabb.maxs);
+                let center = aabb.center();
+                for c in np.iter_mut() { *c = (*c + (-center.coords)) / diag; } }
+            let eig = crate::p3::utils::cov(&np).symmetric_eigen();
+            let (evec, eval) = (eig.eigenvectors, eig.eigenvalues);
+            let obs = format!("{} {} {} {} {} {}", d3::hv(&evec.column(0).into_owned()), d3::hv(&evec.column(1).into_owned()), d3::hv(&evec.column(2).into_owned()),
+                hx(eval[0]), hx(eval[1]), hx(eval[2]));
+            let out = match std::panic::catch_unwind(std::panic::AssertUnwindSafe(|| try_convex_hull(&pts))) {
+                Err(_) => "hullpanic".to_string(),
+                Ok(Err(e)) => format!("err {:?}", e).replace(' ', "_").replacen("err_", "err ", 1),
+                Ok(Ok((v, t))) => {
+                    use std::io::Write; use std::os::unix::io::AsRawFd;
+                    extern "C" { fn dup(fd: i32) -> i32; fn dup2(a: i32, b: i32) -> i32; fn close(fd: i32) -> i32; }
+                    let _ = std::io::stdout().flush();
+                    let null = std::fs::OpenOptions::new().write(true).open("/dev/null").expect("devnull");
+                    let saved = unsafe { dup(1) };
+                    unsafe { dup2(null.as_raw_fd(), 1); }
+                    let res = std::panic::catch_unwind(std::panic::AssertUnwindSafe(|| crate::p3::transformation::check_convex_hull(&v, &t)));
+                    let _ = std::io::stdout().flush();
+                    unsafe { dup2(saved, 1); close(saved); }
+                    if res.is_ok() { "ok".into() } else { "panic".into() } } };
+            format!("{} ;; {}", obs, out) }
         "hull3" => { let n = a.u(); let pts: Vec<_> = (0..n).map(|_| d3::p(a)).collect();
             match try_convex_hull(&pts) {
                 Err(e) => format!("err {:?}", e).replace(' ', "_").replacen("err_", "err ", 1),
@@ -531,5 +558,21 @@ pub fn gen(r: &mut Rng, thorough: bool) -> Vec<(String, String)> {
         v.push(("validate3".into(), format!("{} {} {}", fmt3(&p), t.len(), t.iter().map(|t| format!("{} {} {}", t[0], t[1], t[2])).collect::<Vec<_>>().join(" ")).replace("  ", " ").trim().to_string()));
     }
     if std::env::var("VERIF_DBG").is_ok() { eprintln!("C12 validate3 families 0..11: {:?}", vfam); }
+    // fu5: every hull must pass the maintainers' validator (clouds from all the 3-D families, incl. duplicates, coplanar subsets, slabs)
+    let m7 = if thorough { 600 } else { 150 };
+    for it in 0..m7 {
+        let base = match it % 8 {
+            0 => bumpy_cube(r),
+            1 => { let np3 = 4 + r.below(60) as usize; cloud3(r, 2, np3) }
+            2 => { let np3 = 4 + r.below(80) as usize; cloud3(r, 1, np3) }
+            3 => { let k3 = r.below(6); let np3 = 4 + r.below(60) as usize; cloud3(r, k3, np3) }
+            4 => solid3(r),
+            5 => merged_solid(r),
+            6 => { let np3 = 4 + r.below(30) as usize; let mut p = cloud3(r, 2, np3); let d = p.clone(); p.extend(d); shuffle(r, &mut p); p }
+            _ => if it % 16 == 7 { multiscale_cloud(r) } else { rotated_face_cloud(r) },
+        };
+        let cloud = if it % 3 == 0 { base } else { let exact = r.bool(); similarity(r, &base, exact) };
+        v.push(("hull3v".into(), fmt3(&cloud)));
+    }
     v
 }
